@@ -40,6 +40,12 @@ class LockFlow(object):
         if self.clsname is None and func.parent is not None and func.parent.cls is not None:
             self.clsname = func.parent.cls.name
         self.aliases = {}       # local name -> (lockexpr, 'acquire'|'release'|'locked')
+        self.lock_names = {}    # local name -> lockexpr   (lock = self._cache_lock)
+        for n in walk_local(func.node):
+            if isinstance(n, ast.Assign) and isinstance(n.value, ast.Attribute) and len(n.targets) == 1 and isinstance(n.targets[0], ast.Name):
+                attr = mangle(self.clsname, n.value.attr) if self.clsname else n.value.attr
+                if attr in lock_attrs or n.value.attr in lock_attrs:
+                    self.lock_names[n.targets[0].id] = src(n.value)
         for n in walk_local(func.node):
             if isinstance(n, ast.Assign) and isinstance(n.value, ast.Attribute) \
                     and n.value.attr in ("acquire", "release", "locked"):
@@ -65,6 +71,8 @@ class LockFlow(object):
             attr = mangle(self.clsname, e.attr) if self.clsname else e.attr
             if attr in self.lock_attrs or e.attr in self.lock_attrs:
                 return src(e)
+        if isinstance(e, ast.Name) and e.id in getattr(self, "lock_names", {}):
+            return self.lock_names[e.id]
         return None
 
     def _call_op(self, call):
